@@ -619,3 +619,127 @@ Example fd_layout_example :
   [53; 0; 13; 155; 1; 2; 255; 255; 255; 255; 255; 255;
    194; 170; 187; 255; 255; 255; 255; 255; 255; 255; 255; 104; 105].
 Proof. vm_compute. reflexivity. Qed.
+
+(* ================= every accepted octet string: what was decoded is what the octets say ================= *)
+
+(* end of the file data inside an accepted PDU *)
+Definition fd_end (h : PduHeader) : Z :=
+  if cf_crc (h_conf h) =? 1 then hdr_packet_len h - 2 else hdr_packet_len h.
+
+Lemma slice_split_first (d : bytes) i j b : 0 <= i -> i < j -> j <= len d -> py_get d i = Ok b ->
+  slice d i j = b :: slice d (i + 1) j.
+Proof.
+  intros Hi Hj Hl G. unfold slice, py_get in *. destruct (i <? 0) eqn:E; [lia|].
+  destruct (nth_error d (Z.to_nat i)) as [x|] eqn:N; [|discriminate]. injection G as ->.
+  replace (Z.to_nat (i + 1)) with (S (Z.to_nat i)) by lia.
+  replace (Z.to_nat (j - i)) with (S (Z.to_nat (j - (i + 1)))) by lia.
+  clear E Hj Hl Hi. revert N. generalize (Z.to_nat i) as k. generalize (Z.to_nat (j - (i + 1))) as m.
+  intros m k. revert d. induction k as [|k IH]; intros d N.
+  - destruct d as [|y d]; [discriminate|]. cbn in N. injection N as ->. reflexivity.
+  - destruct d as [|y d]; [discriminate|]. cbn [nth_error] in N. cbn [skipn]. apply IH. exact N.
+Qed.
+
+Theorem fd_unpack_inv d p : wf_bytes d -> fd_unpack d = Ok p ->
+  let h := fd_hdr p in
+  hdr_unpack d = Ok h /\ hdr_valid h /\
+  hdr_packet_len h <= len d /\
+  (cf_crc (h_conf h) = 1 -> crc16 (firstn (Z.to_nat (hdr_packet_len h)) d) = 0) /\
+  hdr_header_len h <= fd_end h /\
+  hdr_layout h ++ fd_body (h_conf h) (fd_params p) = firstn (Z.to_nat (fd_end h)) d /\
+  meta_valid (fp_meta (fd_params p)) /\
+  (h_meta h = match fp_meta (fd_params p) with None => 0 | Some _ => 1 end).
+Proof.
+  intros W. unfold fd_unpack.
+  destruct fd_empty_ok as (e0 & -> & Pe0). cbn [bind].
+  destruct (hdr_unpack d) as [h|e] eqn:U; [|discriminate]. cbn [bind].
+  destruct (hdr_pack_unpack d h W U) as (HV & Lhl & LY & _).
+  destruct (hdr_valid_packet_len h HV) as [Rhl Rpl].
+  rewrite hdr_verify_spec by lia.
+  destruct (len d <? hdr_packet_len h) eqn:E1; [discriminate|].
+  destruct ((cf_crc (h_conf h) =? 1) && negb (crc16 (firstn (Z.to_nat (hdr_packet_len h)) d) =? 0)) eqn:EC;
+    [discriminate|]. cbn [bind].
+  unfold fd_with_hdr. cbn [fd_hdr fd_params]. rewrite Pe0.
+  change (if cf_crc (h_conf h) =? CRC_WITH_CRC then hdr_packet_len h - 2 else hdr_packet_len h) with (fd_end h).
+  assert (Re : fd_end h <= len d) by (unfold fd_end; destruct (cf_crc (h_conf h) =? 1); lia).
+  assert (HF : flag (cf_large (h_conf h))) by apply HV.
+  assert (HM : flag (h_meta h)) by apply HV.
+  assert (NN : (if negb (hdr_large_file h) then 4 else 8) = Z.of_nat (fss_octets (h_conf h))).
+  { unfold hdr_large_file, fss_octets, FILE_LARGE. destruct HF as [-> | ->]; reflexivity. }
+  assert (CRC : cf_crc (h_conf h) = 1 -> crc16 (firstn (Z.to_nat (hdr_packet_len h)) d) = 0).
+  { intros C1. rewrite C1 in EC. cbn [Z.eqb Pos.eqb andb] in EC.
+    destruct (crc16 _ =? 0) eqn:Z0; [lia|discriminate]. }
+  (* second half *)
+  assert (TAIL : forall (m : option SegMeta) idx,
+            hdr_header_len h <= idx -> idx <= fd_end h ->
+            hdr_layout h ++ fd_meta_layout m = firstn (Z.to_nat idx) d ->
+            meta_valid m -> h_meta h = match m with None => 0 | Some _ => 1 end ->
+            (let p0 := {| fd_hdr := h; fd_params := {| fp_data := []; fp_offset := 0; fp_meta := m |} |} in
+             let n := if negb (hdr_large_file (fd_hdr p0)) then 4 else 8 in
+             if idx + n >? fd_end h then Err EValue else
+             do off <- struct_unpack (Z.to_nat n) (slice d idx (idx + n));
+             let q := fd_params p0 in
+             let p1 := fd_with_params p0 {| fp_data := fp_data q; fp_offset := off; fp_meta := fp_meta q |} in
+             let current_idx := idx + n in
+             if current_idx <? fd_end h then
+               let q := fd_params p1 in
+               Ok (fd_with_params p1 {| fp_data := slice d current_idx (fd_end h);
+                                        fp_offset := fp_offset q; fp_meta := fp_meta q |})
+             else Ok p1) = Ok p ->
+            fd_hdr p = h /\ hdr_header_len h <= fd_end h /\
+            hdr_layout h ++ fd_body (h_conf h) (fd_params p) = firstn (Z.to_nat (fd_end h)) d /\
+            meta_valid (fp_meta (fd_params p)) /\
+            h_meta h = match fp_meta (fd_params p) with None => 0 | Some _ => 1 end).
+  { intros m idx Hi1 Hi2 PRE MV MF. cbv zeta. cbn [fd_hdr fd_params fp_data fp_offset fp_meta].
+    rewrite NN. set (n := Z.of_nat (fss_octets (h_conf h))).
+    assert (Rn : 0 < n) by (unfold n, fss_octets; destruct (cf_large (h_conf h) =? 1); lia).
+    destruct (idx + n >? fd_end h) eqn:E2; [discriminate|].
+    rewrite struct_unpack_ok by (rewrite slice_length by lia; lia). cbn [bind].
+    unfold fd_with_params. cbn [fd_hdr fd_params fp_data fp_offset fp_meta].
+    assert (OFFE : be_encode (fss_octets (h_conf h)) (be_decode (slice d idx (idx + n))) = slice d idx (idx + n)).
+    { replace (fss_octets (h_conf h)) with (length (slice d idx (idx + n)))
+        by (rewrite slice_length by lia; unfold n; lia).
+      apply be_encode_decode. apply wf_bytes_slice. exact W. }
+    assert (J : forall dt, dt = slice d (idx + n) (fd_end h) ->
+              hdr_layout h ++ fd_meta_layout m ++ be_encode (fss_octets (h_conf h)) (be_decode (slice d idx (idx + n))) ++ dt
+              = firstn (Z.to_nat (fd_end h)) d).
+    { intros dt ->. rewrite app_assoc, PRE, OFFE. rewrite <- slice_0_firstn.
+      rewrite !slice_adjacent by lia. apply slice_0_firstn. }
+    destruct (idx + n <? fd_end h) eqn:E3; intros X; injection X as <-; cbn [fd_hdr fd_params fp_data fp_meta fp_offset];
+      (split; [reflexivity|]); (split; [lia|]); (split; [|split; assumption]); unfold fd_body;
+      cbn [fp_data fp_meta fp_offset]; apply J.
+    - reflexivity.
+    - unfold slice. replace (Z.to_nat (fd_end h - (idx + n))) with 0%nat by lia. reflexivity. }
+  assert (PRE0 : hdr_layout h ++ fd_meta_layout None = firstn (Z.to_nat (hdr_header_len h)) d).
+  { cbn [fd_meta_layout]. rewrite app_nil_r. exact LY. }
+  destruct (h_meta h =? 0) eqn:EM; cbn [negb].
+  - cbn [bind]. intros X.
+    destruct (TAIL None (hdr_header_len h)) as (A1 & A2 & A3 & A4 & A5); try assumption; try lia.
+    { (* fd_end >= header_len is only known when the offset fits: take it from the guard *)
+      revert X. cbn [fd_hdr]. rewrite NN. destruct (_ >? fd_end h) eqn:G; [discriminate|]. intros _.
+      pose proof (Nat2Z.is_nonneg (fss_octets (h_conf h))). lia. }
+    { constructor. }
+    cbv zeta. rewrite A1. split; [reflexivity|]. split; [exact HV|]. split; [lia|]. split; [exact CRC|].
+    split; [exact A2|]. split; [exact A3|]. split; [exact A4|exact A5].
+  - destruct (hdr_header_len h >=? fd_end h) eqn:E3; [discriminate|].
+    destruct (py_get_in_range d (hdr_header_len h) ltac:(lia)) as (b & G & Ib). rewrite G. cbn [bind].
+    pose proof (wf_bytes_In d b W Ib) as Rb.
+    destruct (metaoct_unpack b Rb) as [MO1 MO2]. rewrite MO1, MO2.
+    destruct (hdr_header_len h + 1 + b mod 64 >? fd_end h) eqn:E4; [discriminate|]. cbn [bind].
+    unfold fd_with_params. cbn [fd_hdr fd_params fp_data fp_offset fp_meta fp_empty].
+    intros X.
+    destruct (TAIL (Some {| sm_state := b / 64;
+                            sm_data := slice d (hdr_header_len h + 1) (hdr_header_len h + 1 + b mod 64) |})
+                   (hdr_header_len h + 1 + b mod 64)) as (A1 & A2 & A3 & A4 & A5); try assumption; try lia.
+    { cbn [fd_meta_layout sm_state sm_data]. rewrite slice_len by lia.
+      replace (b / 64 * 64 + (hdr_header_len h + 1 + b mod 64 - (hdr_header_len h + 1))) with b by lia.
+      rewrite LY. rewrite <- slice_0_firstn.
+      change ([b] ++ slice d (hdr_header_len h + 1) (hdr_header_len h + 1 + b mod 64))
+        with (b :: slice d (hdr_header_len h + 1) (hdr_header_len h + 1 + b mod 64)).
+      rewrite <- (slice_split_first d (hdr_header_len h) (hdr_header_len h + 1 + b mod 64) b) by (try assumption; lia).
+      rewrite slice_adjacent by lia. apply slice_0_firstn. }
+    { cbn [meta_valid sm_state sm_data]. rewrite slice_len by lia.
+      split; [lia|]. split; [lia|apply wf_bytes_slice; exact W]. }
+    { unfold flag in HM. lia. }
+    cbv zeta. rewrite A1. split; [reflexivity|]. split; [exact HV|]. split; [lia|]. split; [exact CRC|].
+    split; [exact A2|]. split; [exact A3|]. split; [exact A4|exact A5].
+Qed.
